@@ -176,6 +176,10 @@ func c11Run(stream []byte, cuts []int) string {
 			}
 			prev = c
 			time.Sleep(300 * time.Microsecond)
+		} else if c == prev && prev > 0 {
+			// a repeated cut point (an empty segment for the model): the sender stalls here -
+			// when, not only where, the stream is cut must not matter
+			time.Sleep(1300 * time.Millisecond)
 		}
 	}
 	// did the collector close the connection by itself (decode error)? It does so within
@@ -432,6 +436,18 @@ func runC11(env *Env) {
 			all = append(all, c)
 		}
 		jobs = append(jobs, job{s, all, "valid/byte-by-byte", sLens})
+		// (3b) a sender that stalls: inside a message, between two messages after a split
+		// message, and both (repeated cut point = stall of 1.3 s)
+		{
+			s := mkStream([]string{"T", "TV", "D", "DV", "D"})
+			l := lensCopy()
+			in1 := l[0] + l[1] + 7      // inside the first data message
+			b2 := l[0] + l[1] + l[2]    // the boundary after it
+			in3 := b2 + l[3] + 5        // inside the last message
+			jobs = append(jobs, job{s, []int{in1, in1}, "valid/stall-inside-message", l})
+			jobs = append(jobs, job{s, []int{in1, b2, b2}, "valid/stall-after-split-message", l})
+			jobs = append(jobs, job{s, []int{5, 5, b2, b2, in3, in3}, "valid/stalls", l})
+		}
 		// (4) lying length fields (outside the theorem's frame hypothesis: correspondence only)
 		for _, bad := range lying {
 			for pos := 1; pos < 3; pos++ {
